@@ -47,7 +47,9 @@ SEARCH_N = 60
 SHARD = 20
 DRIVER_TIMEOUT = 1500
 COQ_FILES = ["theories/C12/Props.v", "theories/C12/Link.v"]
-RULE = ("round 6 adds: kv shard-fault streams (2-4 shards behind switchable proxies; one shard unreachable; multi-key Del of "
+RULE = ("round 7 adds: error histories (WRONGTYPE, non-numeric increments, redis.Nil, NOSCRIPT, dead contexts, pipelines with a "
+        "failing command, hang-up peers; context and plain forms; node and cluster clients; kv) in a driver process with the "
+        "Prometheus agent ENABLED; round 6 adds: kv shard-fault streams (2-4 shards behind switchable proxies; one shard unreachable; multi-key Del of "
         "3-6 keys in random order against the twin's per-key DELs of the reachable keys; shard back up); round 5 adds: breaker phases against peers that accept, read the request and hang up (bare io.EOF) / reset / never answer "
         "(30 calls cycling over 16 command kinds, real breaker), per-command connection-failure runs (every guarded method twice, "
         "recording breaker), count streams (populated hash/set/zset/keys, calls naming 0-3 existing members at once; adds vs "
@@ -647,6 +649,42 @@ def _shard_fault(rng, nshards=None):
             "shards": shards, "proxy": True, "fault": True, "ops": ops}
 
 
+# ---- round 7: error replies with the Prometheus agent enabled (the go-redis hook then really records) ----
+def _errors(rng, kv):
+    """error-heavy history: typed keys, then commands on keys of the wrong type (WRONGTYPE), non-numeric increments,
+    absent keys (redis.Nil), unknown shas, dead contexts -- in context and plain form -- and pipelines with a failing
+    command in the middle"""
+    tbl = KV_OPS if kv else REDIS_OPS
+    ops = [{"m": "SetCtx", "form": "ctx", "a": ["s0", "abc"]}, {"m": "HSetCtx", "form": "ctx", "a": ["h0", "a", "1"]},
+           {"m": "RPushCtx", "form": "ctx", "a": ["l0", ["x", "y"]]}, {"m": "SAddCtx", "form": "ctx", "a": ["t0", ["a", "b"]]},
+           {"m": "ZAddCtx", "form": "ctx", "a": ["z0", 1, "a"]}]
+    wrong = [("HGetCtx", ["s0", "a"]), ("HSetCtx", ["s0", "a", "1"]), ("LPushCtx", ["s0", ["v"]]), ("RPopCtx", ["h0"]), ("LPopCtx", ["t0"]),
+             ("SAddCtx", ["l0", ["m"]]), ("ZAddCtx", ["l0", 1, "m"]), ("ZScoreCtx", ["t0", "a"]), ("IncrCtx", ["s0"]), ("IncrByCtx", ["s0", 2]),
+             ("GetCtx", ["h0"]), ("HIncrByCtx", ["h0", "a2", 1]), ("SMembersCtx", ["z0"]), ("ZRangeWithScoresCtx", ["s0", 0, -1]),
+             ("HGetAllCtx", ["l0"]), ("LRangeCtx", ["s0", 0, -1]), ("SetBitCtx", ["s0", 1, 5]), ("ExpireCtx", ["nokey", 5]),
+             ("HGetCtx", ["h0", "absent"]), ("LIndexCtx", ["l0", 9]), ("ZRankCtx", ["z0", "absent"]), ("GetCtx", ["nokey"])]
+    if not kv:
+        wrong += [("EvalShaCtx", ["0" * 40, ["s0"], []]), ("EvalCtx", [2, ["s0"], ["1"]]), ("MGetCtx", [["s0", "nokey"]]),
+                  ("PFCountCtx", ["s0"]), ("BitCountCtx", ["h0", 0, -1])]
+    rng.shuffle(wrong)
+    for m, a in wrong:
+        if m in tbl:
+            ops.append({"m": m, "form": rng.choice(["ctx", "plain", "ctx", "canceled"]), "a": a})
+        if not kv and rng.random() < 0.35:
+            ops.append({"m": "PipelinedCtx", "form": rng.choice(["ctx", "plain"]),
+                        "a": [[["set", "p0", "1"], ["incr", "s0"], ["hset", "s0", "f", "v"], ["get", "p0"], ["lpush", "h0", "x"]][:rng.randint(2, 5)]]})
+    c = {"kind": "kv", "seed": 7, "weights": [100, 100], "ops": ops} if kv else {"kind": "diff", "n": 1, "seed": 7, "ops": ops}
+    c["metrics"] = True
+    return c
+
+
+def _fixed_round7(rng):
+    out = [_errors(rng, False), _errors(rng, False), _errors(rng, True), dict(_connfail(rng, "eof", 10, 1), metrics=True)]
+    o = _errors(rng, False)
+    o["opts"] = _opts(rng, True, True, False)      # cluster client + password: the same hook on the cluster client
+    return out + [o]
+
+
 def _fixed_round4(rng):
     """pass x {node, cluster} (and a TLS combination) are in every run, for the wrapper and for the sharded store"""
     out = [_diff(rng, _opts(rng, False, True, False), 30, blocking=True), _diff(rng, _opts(rng, True, True, False), 30, blocking=True),
@@ -663,7 +701,7 @@ def generate(rng, tier, n):
     nb = 1 if tier in ("quick", "search") else max(2, n // 200)
     fixed = []
     for k in range(nb):
-        fixed += [_breaker(rng), _dead(rng, False), _dead(rng, True)] + [_sha(rng) for _ in range(4)] + _fixed_round4(rng) + _fixed_round5(rng, tier, k == 0)
+        fixed += [_breaker(rng), _dead(rng, False), _dead(rng, True)] + [_sha(rng) for _ in range(4)] + _fixed_round4(rng) + _fixed_round5(rng, tier, k == 0) + (_fixed_round7(rng) if k == 0 else [])
     cases.extend(fixed[:n])
     while len(cases) < n:
         x = rng.random()
@@ -689,6 +727,7 @@ def search(rng, problems):
                       "ops": _history(rng, KV_OPS, 22, focus=m)})
     cases.append(_breaker(rng))
     cases += _fixed_round5(rng, "search")
+    cases += _fixed_round7(rng)
     cases += [_dead(rng, False), _dead(rng, True), _sha(rng), _sha(rng)]
     cases += [_multi(rng) for _ in range(6)]
     cases += [_with_restarts(rng, {"kind": "kv", "seed": rng.randrange(1 << 16), "weights": [100, 100, 50],
@@ -723,7 +762,9 @@ def _run_chunks(jobs, tag):
 
     def one(job):
         k, (pkg, idx, cs_) = job
-        o, lg = vlib.run_driver(pkg, cs_, name="C12_%s_%s_%d" % (pkg.split("/")[-1], tag, k), timeout=DRIVER_TIMEOUT)
+        # cases flagged "metrics" run in a driver process of their own, with the Prometheus agent enabled
+        env = {"VERIF_C12_METRICS": "1"} if cs_ and cs_[0].get("metrics") else None
+        o, lg = vlib.run_driver(pkg, cs_, name="C12_%s_%s_%d" % (pkg.split("/")[-1], tag, k), timeout=DRIVER_TIMEOUT, env=env)
         return pkg, idx, o, lg
 
     out, logs = {}, []
@@ -743,9 +784,13 @@ def drive(cases, tier):
     that its raw twin did not meet is re-run ONCE in a fresh process and the second observation is the one that counts:
     a regression reproduces (and is reported as usual), an environment hiccup does not."""
     groups = {GO_PKG: [], KV_PKG: []}
+    mgroups = {GO_PKG: [], KV_PKG: []}
     for i, c in enumerate(cases):
-        groups[KV_PKG if c["kind"] == "kv" else GO_PKG].append(i)
+        (mgroups if c.get("metrics") else groups)[KV_PKG if c["kind"] == "kv" else GO_PKG].append(i)
     jobs = []
+    for pkg, idx in mgroups.items():
+        if idx:
+            jobs.append((pkg, idx, [cases[i] for i in idx]))
     for pkg, idx in groups.items():
         # at least two processes per package (the fixed heavy cases come first: deal the cases out round-robin)
         nproc = max(-(-len(idx) // CHUNK), 2 if len(idx) >= 8 else 1)
@@ -763,9 +808,10 @@ def drive(cases, tier):
         todo = suspects[:RETRY_MAX]
         rjobs = []
         for pkg in (GO_PKG, KV_PKG):
-            part = [i for i in todo if (cases[i]["kind"] == "kv") == (pkg == KV_PKG)]
-            for k in range(0, len(part), 20):
-                rjobs.append((pkg, part[k:k + 20], [cases[i] for i in part[k:k + 20]]))
+            for met in (False, True):
+                part = [i for i in todo if (cases[i]["kind"] == "kv") == (pkg == KV_PKG) and bool(cases[i].get("metrics")) == met]
+                for k in range(0, len(part), 20):
+                    rjobs.append((pkg, part[k:k + 20], [cases[i] for i in part[k:k + 20]]))
         res2, log2 = _run_chunks(rjobs, tier + "_retry")
         log += "\n" + log2
         if res2 is not None:
@@ -931,6 +977,8 @@ def bucket(case, obs):
             out.append("kvstate:keys-on-several-shards")
     if case.get("fault"):
         out.append("stream:shard-fault")
+    if case.get("metrics"):
+        out.append("stream:metrics-enabled")
     for op, st in zip(case["ops"], obs.get("steps", [])):
         if st.get("downpos"):
             dp, nk = st["downpos"], st["nkeys"]
